@@ -447,6 +447,13 @@ impl TulispObject {
         self.span.get()
     }
 
+    /// Verification hook: a copy of the value held by this object, so that a
+    /// harness can look inside quote wrappers.
+    #[cfg(tulisp_verif)]
+    pub fn verif_value(&self) -> TulispValue {
+        self.clone_inner()
+    }
+
     #[doc(hidden)]
     pub fn deep_copy(&self) -> Result<TulispObject, Error> {
         if self.symbolp() {
